@@ -9,7 +9,12 @@ case "$cmd" in
 up)
   shift 3
   i=0
-  while [ $i -le $((N+1)) ]; do ip netns add $(ns $i); ip -n $(ns $i) link set lo up; i=$((i+1)); done
+  while [ $i -le $((N+1)) ]; do
+    ip netns add $(ns $i); ip -n $(ns $i) link set lo up
+    # no ICMP rate limiting of any kind (per-destination, global tokens), generous ARP/neighbour timing
+    ip netns exec $(ns $i) sysctl -qw net.ipv4.icmp_ratelimit=0 net.ipv4.icmp_msgs_per_sec=100000 net.ipv4.icmp_msgs_burst=10000 2>/dev/null || true
+    i=$((i+1))
+  done
   k=0
   while [ $k -le $N ]; do
     a=$(ns $k); b=$(ns $((k+1)))
